@@ -57,9 +57,56 @@ def reconfig(tier, seed):
     return runs, uniq, pmap(replay_popreconfig.replay_case, [(x, seed) for x in uniq])
 
 
+CL_CLAUSES = {'Agree', 'PriorAgrees', 'Available', 'Evaluable'}
+
+
+def ctrl_life(tier, seed):
+    """module CtrlLife: the life cycle of the problem controller (set_population_model / set_data / fix / release /
+    set_log_prior in any order).  TLC checks PriorAgrees etc. over all histories of <= 6 calls with every population model
+    of <= 3 dimensions; the as-found rule (set_data keeps the prior) must be refuted; every history of 4 calls over eight
+    population models (thorough: random walks of 8 calls over all of them) is applied to a real controller."""
+    from . import tlc, replay_ctrllife
+    from .verdict import pmap
+    runs = []
+    r = tlc.run('MC_CtrlLife', 'CtrlLife_quick.cfg', want_records=False)
+    runs.append(dict(cfg='CtrlLife_quick.cfg', mode='exhaustive (VIEW hides the history)', **_summ(r)))
+    try:
+        tlc.run('MC_CtrlLife', 'CtrlLife_asfound.cfg', want_records=False)
+        raise MachineryError('negative control failed: the as-found prior rule was not refuted')
+    except tlc.SpecViolation as e:
+        if e.res.violated != 'PriorAgrees':
+            raise MachineryError('as-found prior rule refuted on %s' % e.res.violated)
+    r = tlc.run('MC_CtrlLife', 'CtrlLife_walks.cfg')
+    runs.append(dict(cfg='CtrlLife_walks.cfg', mode='exhaustive, every history of MaxOps=4 calls exported', histories=len(r.records),
+                     **_summ(r)))
+    recs = list(r.records)
+    if tier == 'thorough':
+        for k in range(4):
+            w = tlc.simulate('MC_CtrlLife', 'CtrlLife_long.cfg', 500, 40, seed=seed * 10 + k)
+            runs.append(dict(cfg='CtrlLife_long.cfg', mode='simulate num=500 (MaxOps=8, all population models)',
+                             histories=len(w.records), **_summ(w)))
+            recs += w.records
+    seen, uniq = set(), []
+    for x in recs:
+        k = json.dumps(x, sort_keys=True)
+        if k not in seen:
+            seen.add(k)
+            uniq.append(x)
+    return runs, uniq, pmap(replay_ctrllife.replay_case, [(x, seed) for x in uniq])
+
+
 def run(tier, seed):
     def extra(v, cov):
+        runs2, uniq2, res2 = ctrl_life(tier, seed)
+        for fails, cnt in res2:
+            v.failures([f for f in fails if f['clause'] in CL_CLAUSES])
+            v.merge_counters({'ctrl_' + k: n for k, n in cnt.items()})
+        if not uniq2 or not v.counters.get('ctrl_evaluations') or not v.counters.get('ctrl_feat_data_set_after_prior'):
+            raise MachineryError('vacuous controller life-cycle run')
+        cov['controller_histories_replayed'] = len(uniq2)
+        cov['spec_negative_control'] += '; CtrlLife_asfound.cfg (set_data keeps the prior) refuted by TLC on PriorAgrees'
         runs, uniq, res = reconfig(tier, seed)
+        runs, uniq = runs + runs2, uniq + uniq2
         for fails, cnt in res:
             v.failures([f for f in fails if f['clause'] in RC_CLAUSES])
             v.merge_counters({'reconfig_' + k: n for k, n in cnt.items()})
@@ -72,7 +119,9 @@ def run(tier, seed):
         cov['reconfiguration_histories_replayed'] = len(uniq)
         cov['rule'] += ('; plus module PopReconfig: every history of 4 reconfiguration calls (and, thorough, random walks '
                         'of up to 8) on six compositions, replayed on the real objects, counts/names/IDs/vector and '
-                        'gradient lengths compared after every call and at the end')
+                        'gradient lengths compared after every call and at the end; plus module CtrlLife: every history of 4 '
+                        'configuration calls of the problem controller (thorough: walks of 8), names / counts / prior held after '
+                        'every call, posterior available iff specified, prior paired with the parameters it was set for')
     return poplayout_check.run(PROP, tier, seed, [], RULES[PROP], extra=extra)
 
 
